@@ -37,7 +37,7 @@ def spec_row(flag, index_in_range):
         le(P("locktime", tm.INT), 4), le(flag, 4)])
 
 
-def run(ctx):
+def check_rows(ctx, oid="C11.1"):
     R = ctx.R
     fi = ctx.fn("bits.bips.bip143.witness_message")
     ev = ctx.evaluator()
@@ -50,17 +50,30 @@ def run(ctx):
             got = s.value()
             want = spec_row(flag, inr)
             label = "flag=0x%02x, index %s #outputs" % (flag, "<" if inr else ">=")
-            R.check("C11.1", "TERM-EQ", fi, label, tm.veq(got, want),
+            R.check(oid, "TERM-EQ", fi, label, tm.veq(got, want),
                     "BIP143 preimage differs for %s: %s" % (label, tm.first_diff(got, want)),
                     expected=tm.show(want), found=tm.show(got),
                     example="any transaction signed with %s" % label)
-            R.check("C11.2", "EXC", fi, label + " raises", not s.raises(),
+            R.check(oid if oid != "C11.1" else "C11.2", "EXC", fi, label + " raises", not s.raises(),
                     "witness_message can raise for %s: %s" % (label, s.raises()[:1]))
             rows += 1
     ev.assumptions = {}
-    R.floor("C11.1", rows, 12, "bip143_rows")
+    R.floor(oid, rows, 12, "bip143_rows")
+    # module-level mutable state must not feed the message (a cache keyed on part of the inputs goes stale)
+    import ast as _ast
+    st = [n for n in _ast.walk(fi.node) if isinstance(n, _ast.Global)]
+    R.check(oid, "OWN", fi, "no module-level state in witness_message", not st, "witness_message uses module-level mutable state")
+
+
+def run(ctx):
+    R = ctx.R
+    check_rows(ctx)
+    ev = ctx.evaluator()
     fd = ctx.fn("bits.bips.bip143.witness_digest")
     sd = ev.run(fd)
     want = H2(P("witness_msg", tm.BYTES))
     R.check("C11.3", "TERM-EQ", fd, "witness_digest", tm.veq(sd.value(), want),
             "witness_digest is not SHA256(SHA256(msg)): %s" % tm.first_diff(sd.value(), want))
+    # the caller in send_tx passes the selected input's own index and exact amount (shared with C16)
+    from . import c16
+    c16.check_message_call(ctx, "C11.4")
